@@ -518,7 +518,7 @@ def decode(code):
 def run(run):
     rng = random.Random(run.seed)
     thorough = run.tier == "thorough"
-    n_atoms = 12000 if thorough else 1400
+    n_atoms = 12000 if thorough else 1200
     run.cov["rule"] = ("atoms generated type-directed (Bool/Int/String/RegLan) from SMT-LIB text over every operator of "
                        "SmtAst.v, depth <= 4, literals and variable instantiations from a nasty pool (empty, newline, quote, "
                        "backslash, non-ASCII, > U+00FF, signed/padded numerals, class metacharacters), negative values via (- 0 n) and "
